@@ -113,8 +113,12 @@ def path_features(nodes, steps):
 
 
 @st.composite
-def graph_and_records(draw, canonical, max_records, min_records=1, tags=True, max_chroms=2, max_elements=5):
-    g = draw(gen_graph.rgfa(max_chroms=max_chroms, max_elements=max_elements))
+def graph_and_records(draw, canonical, max_records, min_records=1, tags=True, max_chroms=2, max_elements=5, tier="quick",
+                      real=False):
+    if real:
+        g = draw(gen_graph.any_graph(tier, max_chroms=max_chroms, max_elements=max_elements))
+    else:
+        g = draw(gen_graph.rgfa(max_chroms=max_chroms, max_elements=max_elements))
     lm = models.LinkModel(g["links"])
     n = draw(st.integers(min_records, max_records))
     recs = []
